@@ -362,6 +362,9 @@ def measure_rule(ctx):
 
 
 def run(ctx):
+    from . import e2e_rules as _e2e
+
+    ctx.attempt(_e2e.geometry_rule, ctx, 'R8.E1')
     from ..shared import group_loop_rule as _group_loop_rule
 
     ctx.attempt(_group_loop_rule, ctx, "R8.12", scope=lambda f, _s=("EasyFEA.FEM._mesh", "EasyFEA.FEM._group_elem"): f.module.name.startswith(_s), min_instances=5)
